@@ -231,6 +231,25 @@ fn kgen<A: Cm, const K: usize, S: StorageX>(req: &KReq) -> R<KRes> {
             let back: Result<Kmer<A, K, S>, String> = bincode::deserialize(&bytes).map_err(|e| e.to_string());
             let text = serde_json::to_string(&k).map_err(|e| Fail { site: "serde/json_ser".into(), msg: format!("serde_json::to_string failed: {e}") })?;
             let jback: Result<Kmer<A, K, S>, String> = serde_json::from_str(&text).map_err(|e| e.to_string());
+            // other entry points of the same formats must agree with the primary ones
+            let jreader: Result<Kmer<A, K, S>, String> = serde_json::from_reader(text.as_bytes()).map_err(|e| e.to_string());
+            // serde_json's value tree cannot hold integers above u64::MAX (a limit of that crate's
+            // Value type, not of the k-mer): that path is only compared when the tree can be built
+            let jvalue: Result<Kmer<A, K, S>, String> = match serde_json::to_value(&k) {
+                Ok(v) => serde_json::from_value(v).map_err(|e| e.to_string()),
+                Err(_) => jback.clone(),
+            };
+            let breader: Result<Kmer<A, K, S>, String> = bincode::deserialize_from(&bytes[..]).map_err(|e| e.to_string());
+            let jback = match (jback, jreader, jvalue) {
+                (Ok(a), Ok(b), Ok(c)) if a == b && b == c => Ok(a),
+                (Ok(_), Ok(_), Ok(_)) => Err("from_str, from_reader and from_value disagree".to_string()),
+                (a, b, c) => Err(format!("from_str: {:?}; from_reader: {:?}; from_value: {:?}", a.err(), b.err(), c.err())),
+            };
+            let back = match (back, breader) {
+                (Ok(a), Ok(b)) if a == b => Ok(a),
+                (Ok(_), Ok(_)) => Err("deserialize and deserialize_from disagree".to_string()),
+                (a, b) => Err(format!("deserialize: {:?}; deserialize_from: {:?}", a.err(), b.err())),
+            };
             KRes::Serde(SerdeRes {
                 orig: info(&k),
                 bincode_stable: back.as_ref().map(|b| bincode::serialize(b).ok() == Some(bytes.clone())).unwrap_or(false),
